@@ -204,9 +204,11 @@ def step (s : St) (toks : List String) : St × String :=
         let rs : List Index.TxResult := (items.zipIdx).map fun (p, i) =>
           { height := h, index := i, tx := p.1, events := p.2 }
         let db := Index.addBatch Hs s.db rs
+        -- `wait=0`: the block is only queued (answer `queued`); its effect is the same
+        let queued := kv r "wait" == some "0"
         match BlockIndex.index s.bdb h b e with
-        | some bdb => ({ s with db := db, bdb := bdb }, "ok")
-        | none => ({ s with db := db }, "ok block-rejected")
+        | some bdb => ({ s with db := db, bdb := bdb }, if queued then "queued" else "ok")
+        | none => ({ s with db := db }, if queued then "queued" else "ok block-rejected")
       | none => (s, "bad-op")
     | _, _, _, _ => (s, "bad-op")
   | "bindex" :: r =>
